@@ -158,3 +158,63 @@ func checkNarrowing(w *core.World, r *core.Report, rule string, fns []*ssa.Funct
 	}
 	return n
 }
+
+// checkNarrowArithmetic: in the given functions no +, -, * or << is computed in an integer type
+// narrower than 32 bits with operands whose proved ranges let the result leave the type (the
+// operation wraps before the value is widened: `uint32(x16<<8)` loses the top byte). Returns the
+// number of integer operations examined.
+func checkNarrowArithmetic(w *core.World, r *core.Report, rule string, fns []*ssa.Function, why string) int {
+	n := 0
+	for _, fn := range fns {
+		if fn == nil || len(fn.Blocks) == 0 {
+			continue
+		}
+		var bd *core.Bounds
+		k := 0
+		for _, in := range allInstrs(fn) {
+			bo, ok := in.(*ssa.BinOp)
+			if !ok {
+				continue
+			}
+			switch bo.Op {
+			case token.ADD, token.SUB, token.MUL, token.SHL:
+			default:
+				continue
+			}
+			bt, ok := bo.Type().Underlying().(*types.Basic)
+			if !ok || bt.Info()&types.IsInteger == 0 {
+				continue
+			}
+			n++
+			switch bt.Kind() {
+			case types.Uint8, types.Int8, types.Uint16, types.Int16:
+			default:
+				continue
+			}
+			if bd == nil {
+				bd = core.NewBounds(fn, intBits(w))
+			}
+			tlo, thi, _ := bd.TypeRange(bo.Type())
+			xlo, xhi, okx := bd.RangeAt(bo, bo.X)
+			ylo, yhi, oky := bd.RangeAt(bo, bo.Y)
+			fits := false
+			if okx && oky {
+				switch bo.Op {
+				case token.ADD:
+					fits = xhi+yhi <= thi && xlo+ylo >= tlo
+				case token.SUB:
+					fits = xlo-yhi >= tlo && xhi-ylo <= thi
+				case token.MUL:
+					fits = xlo >= 0 && ylo >= 0 && xhi <= thi && yhi <= thi && xhi*yhi <= thi
+				case token.SHL:
+					fits = xlo >= 0 && ylo >= 0 && yhi < 32 && xhi <= thi && xhi<<uint(yhi) <= thi
+				}
+			}
+			k++
+			r.Touch(core.QName(fn))
+			key := fmt.Sprintf("%s: %s in %s #%d", core.QName(fn), bo.Op, bo.Type(), k)
+			r.Check(fits, rule, key, bo.Pos(), "result proved within the type", fmt.Sprintf("arithmetic in a %s can wrap before the value is widened (operands in [%d,%d] and [%d,%d]): %s", bo.Type(), xlo, xhi, ylo, yhi, why))
+		}
+	}
+	return n
+}
